@@ -2,6 +2,7 @@ package props
 
 import (
 	"fmt"
+	"github.com/ethereum/go-ethereum/crypto"
 	"math/big"
 	"math/rand"
 	"os"
@@ -88,6 +89,8 @@ func c08Gen(r *rand.Rand, tier string) []Case {
 		"vmon # k=5 path=undelegate amt=B",
 		"vspend ? ? ? ? ? # k=5 path=send amt=S+1",
 	})
+	// fixed case: a contract is created under a vesting account (a counterfactual address) and self-destructs
+	out = append(out, Case{"vsuicide", "vtime # dt=5", "vsuicide"})
 	paths := []string{"send", "multisend", "fee", "daofund", "govdeposit", "send", "fee"}
 	amts := []string{"S-1", "S+1", "S/2", "S/2", "B", "1", "1000", "S+1", "S"}
 	for i := 0; i < n; i++ {
@@ -366,6 +369,40 @@ func c08Exec(c Case) (outs []string, fails []Failure, tags []string) {
 							break
 						}
 					}
+				}
+			case "vsuicide":
+				// a vesting account at a counterfactual contract address: the address at which key 4's next deployment will
+				// land gets a grant locked for a year; the deployment's init code then self-destructs to a fresh beneficiary.
+				// The locked coins must not leave (the unchanged code refuses the burn of a locked balance: the transaction
+				// fails as a whole).
+				out = "skip"
+				dep := kr.GetKey(0)
+				X := crypto.CreateAddress(dep.Addr, app.EvmKeeper.GetNonce(ctx, dep.Addr))
+				amt := sdkmath.NewInt(1_000_000 + int64(i))
+				coins := sdk.NewCoins(sdk.NewCoin(denom, amt))
+				lps := sdkvesting.Periods{{Length: 31_536_000, Amount: coins}}
+				vps := sdkvesting.Periods{{Length: 1, Amount: coins}}
+				msg := vestingtypes.NewMsgConvertIntoVestingAccount(kr.GetAccAddr(0), sdk.AccAddress(X.Bytes()), ctx.BlockTime().Add(-10*time.Second), lps, vps, true, false, nil)
+				if _, err := app.VestingKeeper.ConvertIntoVestingAccount(sdk.WrapSDKContext(ctx), msg); err != nil {
+					tags = append(tags, "vsuicide-grant-refused")
+					return
+				}
+				benef := common.BytesToAddress(testAddr(7_000 + i))
+				initCode := append(append([]byte{0x73}, benef.Bytes()...), 0xff) // PUSH20 beneficiary, SELFDESTRUCT
+				price := new(big.Int).Mul(app.FeeMarketKeeper.GetBaseFee(ctx), big.NewInt(2))
+				if price.Sign() == 0 {
+					price = big.NewInt(2_000_000_000)
+				}
+				res, _, _ := c07Send(0, evmtypes.EvmTxArgs{Input: initCode, GasLimit: 300_000, GasPrice: price})
+				if os.Getenv("VERIF_DEBUG") != "" {
+					fmt.Fprintln(os.Stderr, "C08 vsuicide:", res.Code, res.Log)
+				}
+				tags = append(tags, fmt.Sprintf("contract-under-vesting-account-self-destructs:code-%d", res.Code))
+				c2 := nw.GetContext()
+				balX := app.BankKeeper.GetBalance(c2, sdk.AccAddress(X.Bytes()), denom).Amount
+				balB := app.BankKeeper.GetBalance(c2, sdk.AccAddress(benef.Bytes()), denom).Amount
+				if balB.IsPositive() || balX.LT(amt) {
+					fl("C08:locked-coins-left-by-selfdestruct", fmt.Sprintf("a contract created under a vesting account with %s locked for a year self-destructed: the account now holds %s, the beneficiary %s", amt, balX, balB))
 				}
 			case "vunconv":
 				// MsgConvertVestingAccount: back to a plain account, which drops the schedules.  Model: unconvertGuard
